@@ -28,6 +28,8 @@ pub struct ConvOpts {
     pub multi_pos: bool,
     pub aliases: bool,
     pub env_prefix: String,
+    /// extended grammar: allow_negative_numbers / allow_hyphen_values on options, subcommand_precedence_over_arg
+    pub extended: bool,
 }
 
 impl ConvOpts {
@@ -49,6 +51,7 @@ impl ConvOpts {
             multi_pos: true,
             aliases: true,
             env_prefix: String::new(),
+            extended: true,
         }
     }
 }
@@ -152,7 +155,20 @@ fn conv_level(rng: &mut Rng, o: &ConvOpts, name: String, depth_left: usize, inhe
             if o.defaults && rng.chance(1, 3) {
                 a.defaults = vec![format!("{}def", a.id)];
             }
-            if o.typed && a.delim.is_none() && rng.chance(1, 5) {
+            if o.extended && a.delim.is_none() && rng.chance(1, 5) {
+                a.allow_negative = true;
+            } else if o.extended && a.delim.is_none() && a.terminator.is_none() && rng.chance(1, 6) {
+                // hyphen values: an occurrence is then closed only by its maximum or an attached value
+                a.allow_hyphen = true;
+                let (lo, hi) = a.eff_num_args();
+                if lo == 0 {
+                    a.num_args = Some((1, if hi == usize::MAX { 2 } else { hi.max(1) }));
+                    a.default_missing.clear();
+                } else if hi == usize::MAX {
+                    a.num_args = Some((lo, lo + 1));
+                }
+            }
+            if o.typed && a.delim.is_none() && !a.allow_negative && !a.allow_hyphen && rng.chance(1, 5) {
                 a.vp = Some(Vp::I64(0, 1_000_000));
                 if !a.default_missing.is_empty() {
                     a.default_missing = vec!["7".into()];
@@ -199,16 +215,44 @@ fn conv_level(rng: &mut Rng, o: &ConvOpts, name: String, depth_left: usize, inhe
         if last && o.last_pos && rng.chance(1, 5) {
             a.last = true;
         }
+        if o.extended && a.delim.is_none() && rng.chance(1, 5) {
+            a.allow_negative = true;
+        }
         if o.required && rng.chance(1, 6) && c.args.iter().filter(|x| x.is_positional()).all(|x| x.required) && !a.last {
             a.required = true;
         }
         c.args.push(a);
+    }
+    // "low index multiple": `cp <files>... <target>` — multi-valued second-to-last positional, required final one
+    if o.multi_pos && o.extended && npos >= 2 && rng.chance(1, 4) {
+        let idxs: Vec<usize> = (0..c.args.len()).filter(|i| c.args[*i].is_positional()).collect();
+        let (second, last) = (idxs[npos - 2], idxs[npos - 1]);
+        for i in &idxs {
+            c.args[*i].required = true;
+        }
+        c.args[second].action = Some(if rng.coin() { Act::Append } else { Act::Set });
+        c.args[second].num_args = Some((1, usize::MAX));
+        c.args[second].terminator = None;
+        c.args[second].delim = None;
+        // (the look-ahead that hands the last token to the final positional treats any dash-looking
+        // token as "a new argument", so negative-number values are outside this shape)
+        c.args[second].allow_negative = false;
+        c.args[last].allow_negative = false;
+        c.args[last].action = Some(Act::Set);
+        c.args[last].num_args = None;
+        c.args[last].last = false;
+        c.args[last].required = true;
+        c.args[last].delim = None;
+        c.args[last].terminator = None;
     }
     if o.infer && rng.chance(1, 3) {
         c.set(Setting::InferLongArgs);
     }
     if o.infer && rng.chance(1, 3) {
         c.set(Setting::InferSubcommands);
+    }
+    if o.extended && rng.chance(1, 4) {
+        c.set(Setting::SubcommandPrecedenceOverArg);
     }
     if depth_left > 0 {
         let nsubs = rng.below(o.max_subs + 1);
@@ -336,7 +380,15 @@ fn value_tok(rng: &mut Rng, a: &ArgSpec, occ: usize, k: usize) -> String {
     if let Some(Vp::I64(_, _)) = a.vp {
         return format!("{}", 1000 * occ + 10 * k + 1 + rng.below(9));
     }
+    if a.allow_negative && rng.coin() {
+        // a negative number unique to (arg, occurrence, k)
+        let n = hash_str(&a.id) % 900 + 100;
+        return if rng.coin() { format!("-{}{}{}", n, occ, k) } else { format!("-{}{}.{}", n, occ, k) };
+    }
     let base = format!("{}o{}v{}", a.id, occ, k);
+    if a.allow_hyphen && rng.chance(2, 3) {
+        return if rng.coin() { format!("-{}", base) } else { format!("--{}", base) };
+    }
     match a.delim {
         Some(d) if rng.chance(1, 2) => {
             let n = rng.range(2, 3);
@@ -360,6 +412,10 @@ pub fn gen_intent(rng: &mut Rng, c: &CmdSpec, io: &IntentOpts) -> LevelIntent {
     let poss: Vec<usize> = (0..c.args.len()).filter(|i| c.args[*i].is_positional()).collect();
     // choose the subcommand first: closure rules depend on what follows
     let sub = if !c.subs.is_empty() && rng.chance(2, 3) { Some(rng.below(c.subs.len())) } else { None };
+    // low-index multiple pair (multi-valued second-to-last + final positional): both supplied,
+    // adjacent, at the very end of the line, nothing after them
+    let low_index = poss.len() >= 2 && c.args[poss[poss.len() - 2]].eff_num_args().1 > 1 && !c.args[poss[poss.len() - 1]].last;
+    let sub = if low_index { None } else { sub };
     // which positionals are supplied: a prefix (index order); required ones always
     let mut npos = 0;
     for (k, pi) in poss.iter().enumerate() {
@@ -423,7 +479,7 @@ pub fn gen_intent(rng: &mut Rng, c: &CmdSpec, io: &IntentOpts) -> LevelIntent {
     let mut at = 0;
     for k in 0..npos {
         let a = &c.args[poss[k]];
-        if a.last {
+        if a.last || (low_index && k + 2 >= poss.len()) {
             slots.push(Slot::P(poss[k]));
             continue;
         }
@@ -453,7 +509,13 @@ pub fn gen_intent(rng: &mut Rng, c: &CmdSpec, io: &IntentOpts) -> LevelIntent {
                     continue;
                 }
                 let (lo, hi) = a.eff_num_args();
-                let closed_by_next = next_is_dash_or_end(rng);
+                let prec = c.has(Setting::SubcommandPrecedenceOverArg);
+                let closed_by_next = if a.allow_hyphen {
+                    // dash words (even `--`) are values while the occurrence is open: only the end closes it
+                    si + 1 == n && sub.is_none()
+                } else {
+                    next_is_dash_or_end(rng) || (prec && si + 1 == n && sub.is_some())
+                };
                 // number of value tokens
                 let ntok = if a.require_equals {
                     if lo == 0 && closed_by_next && rng.chance(1, 3) {
@@ -499,7 +561,9 @@ pub fn gen_intent(rng: &mut Rng, c: &CmdSpec, io: &IntentOpts) -> LevelIntent {
                 let (lo, hi) = a.eff_num_args();
                 let occ = *occ_count.entry(*pi).or_insert(0);
                 *occ_count.get_mut(pi).unwrap() += 1;
-                let closed_by_next = si + 1 == n && sub.is_none() || matches!(slots.get(si + 1), Some(Slot::O(_)));
+                // (the low-index multiple hands its last token to the final positional by look-ahead)
+                let pair_next = low_index && matches!(slots.get(si + 1), Some(Slot::P(_)));
+                let closed_by_next = pair_next || si + 1 == n && (sub.is_none() || c.has(Setting::SubcommandPrecedenceOverArg)) || matches!(slots.get(si + 1), Some(Slot::O(_)));
                 let ntok = if hi == usize::MAX { rng.range(lo.max(1), lo.max(1) + 3) } else { rng.range(lo.max(1), hi) };
                 let open = hi > 1;
                 let mut term = None;
@@ -523,7 +587,8 @@ pub fn gen_intent(rng: &mut Rng, c: &CmdSpec, io: &IntentOpts) -> LevelIntent {
         let a = &c.args[*arg];
         let (_, hi) = a.eff_num_args();
         let _ = toks;
-        if hi > 1 {
+        // (with subcommand_precedence_over_arg the name is recognised even while values are pending)
+        if hi > 1 && !c.has(Setting::SubcommandPrecedenceOverArg) {
             sub = None;
         }
     }
@@ -940,6 +1005,9 @@ fn render_level<'a>(rng: &mut Rng, c: &'a CmdSpec, li: &LevelIntent, st: &Style,
 }
 
 fn place_values(r: &mut Rendered, lvl: usize, arg: usize, a: &ArgSpec, tok: &str, ti: usize, off: usize) {
+    if tok.starts_with('-') {
+        r.features.push(if a.allow_hyphen { "value.hyphen-looking" } else { "value.negative-number" });
+    }
     // one place per value after delimiter splitting, in order of appearance
     let n = match a.delim {
         Some(d) => tok.split(d).count(),
